@@ -13,12 +13,13 @@ import impl
 import sexp
 from props import c16 as selmod
 
-FLAGS = ["condSwitchCorrection", "scanRegenDefined", "condDiscardVisible", "vmapEmptyConstraint"]
+FLAGS = ["condSwitchCorrection", "scanRegenDefined", "condDiscardVisible", "vmapEmptyConstraint", "condUpdateFill"]
 FLAG_CLASS = {
     "condSwitchCorrection": "cond-switch-weight",
     "scanRegenDefined": "scan-regenerate-raises",
     "condDiscardVisible": "cond-discard-hidden-branch",
     "vmapEmptyConstraint": "vmap-generate-none",
+    "condUpdateFill": "cond-update-hidden-values",
 }
 TOL = 1e-4
 
@@ -48,7 +49,11 @@ class ImplRunner:
         self.args = None
 
     def _args(self, args):
-        return [gfi.to_jnp(a) for a in args]
+        out = [gfi.to_jnp(a) for a in args]
+        g = self.g
+        if g[0] == "cond" or (g[0] == "vmap" and g[1][0] == "cond"):
+            out[0] = out[0] != 0          # a top-level Cond wants a boolean check (term language: non-zero)
+        return out
 
     def observe(self, tr):
         out = {
@@ -56,11 +61,12 @@ class ImplRunner:
             "score": Fr(float(tr.get_score())),
             "retval": gfi.retval_flat(tr.get_retval()),
         }
-        try:
-            ra = tr.get_args()
-            out["args"] = gfi.retval_flat(ra)
-        except Exception as e:  # pragma: no cover
-            out["args_error"] = repr(e)
+        if self.g[0] != "vmap":      # a top-level Vmap trace IS the batched callee trace (known finding vmap-trace-no-wrapper)
+            try:
+                ra = tr.get_args()
+                out["args"] = gfi.retval_flat(ra)
+            except Exception as e:  # pragma: no cover
+                out["args_error"] = repr(e)
         sc = np.asarray(tr.get_score())
         if sc.shape != ():
             out["score_shape"] = list(sc.shape)
@@ -83,7 +89,11 @@ class ImplRunner:
                 self.tr, self.args = tr, op[2]
                 return {"ok": True, **self.observe(tr), "w": Fr(float(w))}
             if kind == "update":
-                tr, w, d = self.gf.update(self.tr, gfi.cm_to_impl(op[1]), *self._args(op[2]))
+                if len(op) > 3 and op[3] == "conv":
+                    # convenience form: trace.update(constraints) re-uses the arguments STORED in the trace
+                    tr, w, d = self.tr.update(gfi.cm_to_impl(op[1]))
+                else:
+                    tr, w, d = self.gf.update(self.tr, gfi.cm_to_impl(op[1]), *self._args(op[2]))
                 old = self.tr
                 self.tr, self.args = tr, op[2]
                 return {"ok": True, **self.observe(tr), "w": Fr(float(w)), "discard": gfi.leafmap(gfi.canon(self.g, d)),
